@@ -81,6 +81,40 @@ func quantCheck(c dCase) string {
 	return ""
 }
 
+// unscaleCheck: turning an integer result back into a float coordinate gives X / 10^p to within 4 units in
+// the last place, judged exactly (the library multiplies by the float 1/10^p, which is not always the exact
+// power of ten, so the last bit is not demanded); a coordinate replaced by 0 or by a wrapped product is caught
+// whatever its magnitude (repaired defect 9416d98)
+func unscaleCheck(c dCase) string {
+	scale := math.Pow(10, float64(c.Prec))
+	pw := new(big.Rat).SetInt(new(big.Int).Exp(big.NewInt(10), big.NewInt(int64(abs(c.Prec))), nil))
+	for _, ps := range []clip.PathsD{c.A, c.B} {
+		for _, p := range clip.ScalePathsDToPaths64(ps, scale) {
+			back := clip.ScalePath64ToPathD(p, 1/scale)
+			for j, pt := range p {
+				for _, t := range [][2]interface{}{{pt.X, back[j].X}, {pt.Y, back[j].Y}} {
+					exact := new(big.Rat).SetInt64(t[0].(int64))
+					if c.Prec >= 0 {
+						exact.Quo(exact, pw)
+					} else {
+						exact.Mul(exact, pw)
+					}
+					got := t[1].(float64)
+					if math.IsNaN(got) || math.IsInf(got, 0) {
+						return fmt.Sprintf("ScalePath64ToPathD turns %d (precision %d) into %v", t[0], c.Prec, got)
+					}
+					d := new(big.Rat).Sub(new(big.Rat).SetFloat64(got), exact)
+					tol := new(big.Rat).Mul(new(big.Rat).Abs(exact), big.NewRat(1, 1<<50))
+					if d.Abs(d).Cmp(tol) > 0 {
+						return fmt.Sprintf("ScalePath64ToPathD turns %d (precision %d) into %v, exact value %s", t[0], c.Prec, got, exact.FloatString(3))
+					}
+				}
+			}
+		}
+	}
+	return ""
+}
+
 var dFns = []string{"BooleanOpPathsD", "UnionPathsD", "engineD", "BooleanOpPolyTreeD", "InflatePathsD", "MinkowskiSumD", "MinkowskiDiffD", "RectClipPathsD", "RectClipLinesPathsD", "TrimCollinearD", "quantise", "precision-range"}
 
 func quantRect(r [4]float64, scale float64) clip.Rect64 {
@@ -271,6 +305,38 @@ func genDCase(r *Rng) dCase {
 	c.ArcTol = []float64{0, 0.25 * step, step}[r.Intn(3)]
 	x0, y0 := float64(r.Range(-60, 20))*step+0.5*step*float64(r.Intn(2)), float64(r.Range(-60, 20))*step+0.7*step*float64(r.Intn(2))
 	c.Rect = [4]float64{x0, y0, x0 + float64(r.Range(10, 120))*step + 0.5*step*float64(r.Intn(2)), y0 + float64(r.Range(10, 120))*step}
+	if (c.Fn == "RectClipPathsD" || c.Fn == "RectClipLinesPathsD") && prec >= 0 && r.Chance(0.3) {
+		// results whose scaled coordinates are integers beyond 2^53: a crossing with the rectangle can be an
+		// odd integer there, which float64(X) / 10^p rounds twice (round-6 seed C07); the extents stay small
+		t := math.Ldexp(1, 53+r.Intn(3)) / math.Pow(10, float64(prec))
+		for i := range c.A {
+			for j := range c.A[i] {
+				c.A[i][j].X += t
+				c.A[i][j].Y += t
+			}
+		}
+		for i := range c.Rect {
+			c.Rect[i] += t
+		}
+	}
+	if prec <= -2 && c.Fn != "quantise" && c.Fn != "precision-range" && r.Chance(0.3) {
+		// negative precisions at magnitudes where result · 10^-p has more than 19 digits (repaired defect
+		// 9416d98: such coordinates came back as 0); the scaled integers stay below 2^58. Only the two
+		// conversions are judged: at these extents the integer engine itself overflows (known finding
+		// site:int64-product-overflow) and may not come back
+		c.Fn = "unscale"
+		for _, ps := range []clip.PathsD{c.A, c.B} {
+			for i := range ps {
+				for j := range ps[i] {
+					ps[i][j].X *= 1e15
+					ps[i][j].Y *= 1e15
+				}
+			}
+		}
+		for i := range c.Rect {
+			c.Rect[i] *= 1e15
+		}
+	}
 	return c
 }
 
@@ -292,6 +358,12 @@ func c07Check(c dCase) (ok bool, kind, detail string) {
 	}
 	if msg := quantCheck(c); msg != "" {
 		return false, "quantisation", msg
+	}
+	if msg := unscaleCheck(c); msg != "" {
+		return false, "unscaling", msg
+	}
+	if c.Fn == "unscale" {
+		return true, "", ""
 	}
 	if c.Fn == "quantise" {
 		// magnitudes at which adding ½ is no longer exact: integral doubles up to 2^53 must map to themselves
